@@ -530,7 +530,12 @@ func GenCrashScript(r *Rng, kind string, hist map[string]int) []string {
 		prop = "C04"
 	}
 	if kind == "merge" {
-		add("merge")
+		if r.Chance(1, 3) {
+			add("mergebusy") // the same merge, with two more Merge calls issued while it runs
+			hist["crash_merge_probed_while_running"]++
+		} else {
+			add("merge")
+		}
 		for i := r.Intn(3); i > 0; i-- {
 			mut()
 		}
